@@ -107,7 +107,7 @@ func (r *Registry) LineNumber(templateName string, node ast.Node) int {
 		log.Println("template not found:", templateName)
 		return 0
 	}
-	return 1 + strings.Count(src[:node.Position()], "\n")
+	return 1 + strings.Count(src[:clampPos(src, node)], "\n")
 }
 
 // ColNumber computes the column number in the relevant line of input source for the given node
@@ -118,7 +118,19 @@ func (r *Registry) ColNumber(templateName string, node ast.Node) int {
 		log.Println("template not found:", templateName)
 		return 0
 	}
-	return 1 + int(node.Position()) - strings.LastIndex(src[:node.Position()], "\n")
+	var pos = clampPos(src, node)
+	return 1 + pos - strings.LastIndex(src[:pos], "\n")
+}
+
+// clampPos returns the node's position, limited to the source text. (When a
+// template name is defined in more than one file, the recorded source may not be
+// the one the node came from.)
+func clampPos(src string, node ast.Node) int {
+	var pos = int(node.Position())
+	if pos > len(src) {
+		pos = len(src)
+	}
+	return pos
 }
 
 // Filename identifies the filename containing the specified template
